@@ -97,7 +97,7 @@ class C19(Property):
             "fake HttpSource, and 4-7 threads really waiting on a 1-3 permit semaphore) against an instrumented 3-permit "
             "openml_semaphore with the fake data set cached before / by a peer during acquire() / served on demand and full, abandoned and raising "
             "reads (permits and cacher locks must be back afterwards), the CobaMultiprocessor glue (for MemoryCacher / DiskCacher / NullCacher and user subclasses: what the workers get as cacher, two workers "
-            "missing one key at once; OpenmlSource objects read, then pickled / deep-copied to a process with another CobaContext.cacher), a key->slot probe across interpreters with different PYTHONHASHSEED, and reader-depth probes (127-400 simultaneous read locks on one "
+            "missing one key at once; OpenmlSource objects read, then pickled / deep-copied to a process with another CobaContext.cacher), a key->slot probe across interpreters with different PYTHONHASHSEED, typed key pairs (1 / 1.0 / True / '1' / None / tuples: one dict entry with two str() forms, two entries with one str(), identical, unrelated) in the history get_set(k1) || get_set(k2) inside k1's getter, rmv(k2), get_set(k1) again, and reader-depth probes (127-400 simultaneous read locks on one "
             "slot of the lock table built by CobaMultiprocessor, by nesting or by threads at a barrier). non-trivial = a scheduled run in which at least "
             "two threads operated on one index and a write lock was taken, or a disk case with a cut strictly inside the entry")
     trusted_base = [
@@ -127,6 +127,7 @@ class C19(Property):
     assumptions = [
         "a caller never operates, inside a with-block, on a different key whose 16-bit hash collides with one it is reading (property quantifier)",
         "getters do not call back into the cacher; every returned context manager is entered and left",
+        "keys that the inner cacher treats as one entry have one lock slot (slotsRespectEq; true for str keys, which is all coba itself uses; false for 1 / 1.0 / True: known finding C19-F4)",
         "for the unrepaired code deadlock freedom and fair termination are proved under the lock-hierarchy hypothesis Hier (nested operations go to keys already held or to larger indexes); "
         "without it two callers can wait for each other (known finding C19-F1)",
     ]
@@ -142,6 +143,9 @@ class C19(Property):
         "chunked_progress_bounded": "the variant of the file-level system decreases on chunk/close steps of SUCCESSFUL getters only: a failing getter may write any "
                                     "number of chunks before it raises in the model, so fair termination of the file-level system is not stated (writer_progress, "
                                     "chunked_no_caller_stuck, chunked_deadlock_free are)",
+        "typed_keys_slot_function_partial": "needs slotsRespectEq (keys that are one entry for the inner cacher have one str(), or at least one slot): 1 / 1.0 / True are one "
+                                            "dict entry with two or three lock slots (C19-F4, typed_keys_counterexample, replayed on the real code); no small repair",
+        "typed_keys_exclusion_partial": "same hypothesis slotsRespectEq (C19-F4)",
         "zero_length_is_absent_concurrent_partial": "needs the file not to be zero-length: through ConcurrentCacher a zero-length file raises (C19-F3, "
                                                     "concurrent_zero_length_counterexample); test_overwrite_empty_cache pins the `in` semantics, no small repair",
     }
@@ -150,6 +154,19 @@ class C19(Property):
     KEYSETS = None
     # distinct legal DiskCacher keys that a "normalising" file-name function would map to one file
     NAME_TWINS = [("openml 42", "openml 42 "), (" k1", "k1"), ("Kx", "kx"), ("x_y", "x y"), ("x.", "x"), ("\u212b1", "\u00c51"), ("\ufb01le", "file")]
+
+    # phase 6: typed key pairs. same entry for a dict but different str() (-> different lock slots), different entries with one str()
+    # (-> one slot, a natural collision), identical, unrelated
+    KEY_PAIRS = [
+        (["int", 1], ["float", 1.0]), (["int", 1], ["bool", True]), (["bool", True], ["float", 1.0]), (["int", 0], ["bool", False]),
+        (["int", 0], ["float", 0.0]), (["float", 0.0], ["float", -0.0]), (["int", 2 ** 53], ["float", float(2 ** 53)]),
+        (["tuple", [["int", 1], ["int", 2]]], ["tuple", [["float", 1.0], ["float", 2.0]]]), (["float", 1.0], ["int", 1]),
+        (["int", 1], ["str", "1"]), (["str", "1"], ["int", 1]), (["float", 1.0], ["str", "1.0"]), (["bool", True], ["str", "True"]),
+        (["none"], ["str", "None"]), (["tuple", [["int", 1]]], ["str", "(1,)"]), (["str", "a"], ["str", "a"]), (["int", 1], ["int", 1]),
+        (["float", 1.5], ["float", 1.5]), (["tuple", [["str", "a"], ["int", 1]]], ["tuple", [["str", "a"], ["int", 1]]]),
+        (["str", "openml_000042_data"], ["str", "openml_000042_data"]), (["int", 10 ** 20], ["int", 10 ** 20]), (["float", 1e300], ["float", 1e300]),
+        (["str", "a"], ["str", "b"]), (["int", 1], ["int", 2]), (["str", "1"], ["str", "1.0"]), (["int", 10], ["float", 1.0]),
+    ]
 
     def pre_build(self):
         """translator step: constants of the lock table and the download semaphore, read with `ast` from the CURRENT source"""
@@ -198,7 +215,36 @@ class C19(Property):
         if pold != text:
             with open(ppath, "w", encoding="utf-8") as f:
                 f.write(text)
-        return ["C19 constants from source: %s%s" % (vals, "" if ok else " (NOT all extracted: source reshaped)"), "C19 protocol from source: " + how]
+        # phase 6: the expressions by which MemoryCacher identifies an entry (subscripts of / membership tests on its dict) -> Generated/C19Keys.lean
+        # (obligation generated_memory_key_identity: the entry is identified by the key ITSELF, which is what `KeyRep.ident` stands for)
+        exprs, kok = [], False
+        try:
+            tree = ast.parse(open(os.path.join(repo, "coba", "context", "cachers.py"), encoding="utf-8").read())
+            cls = [n for n in tree.body if isinstance(n, ast.ClassDef) and n.name == "MemoryCacher"][0]
+            is_store = lambda n: ast.unparse(n) in ("self._cache", "self")
+            found = []
+            for node in ast.walk(cls):
+                if isinstance(node, ast.Subscript) and is_store(node.value):
+                    found.append((node.lineno, node.col_offset, ast.unparse(node.slice)))
+                if isinstance(node, ast.Compare) and len(node.ops) == 1 and isinstance(node.ops[0], (ast.In, ast.NotIn)) and is_store(node.comparators[0]):
+                    found.append((node.lineno, node.col_offset, ast.unparse(node.left)))
+            exprs = [e for _, _, e in sorted(found)]
+            kok = len(exprs) > 0
+        except Exception:
+            pass
+        ktext = ("-- GENERATED by harness/props/c19.py (pre_build) from class MemoryCacher in coba/context/cachers.py on every run; do not edit.\n"
+                 "namespace Coba.C19.Generated\n"
+                 "/-- every subscript of / membership test on MemoryCacher's dict, in source order -/\n"
+                 "def memoryKeyExprs : List String := [%s]\n"
+                 "def memoryKeysExtracted : Bool := %s\nend Coba.C19.Generated\n"
+                 % (", ".join(json.dumps(e) for e in exprs), "true" if kok else "false"))
+        kpath = os.path.join(lean.LEAN_DIR, "CobaVerif", "Generated", "C19Keys.lean")
+        kold = open(kpath, encoding="utf-8").read() if os.path.exists(kpath) else None
+        if kold != ktext:
+            with open(kpath, "w", encoding="utf-8") as f:
+                f.write(ktext)
+        return ["C19 constants from source: %s%s" % (vals, "" if ok else " (NOT all extracted: source reshaped)"), "C19 protocol from source: " + how,
+                "C19 MemoryCacher key expressions from source: %s" % exprs]
 
     def keysets(self):
         if C19.KEYSETS is None:
@@ -373,6 +419,9 @@ class C19(Property):
         if rng.chance(0.04):
             return self.gen_semsched_case(rng, tier)
         r = rng.below(1000)
+        if r >= 994:
+            a, b = rng.choice(self.KEY_PAIRS)
+            return {"kind": "keyeq", "k1": b, "k2": a} if rng.chance(0.5) else {"kind": "keyeq", "k1": a, "k2": b}
         if r < 1:
             return {"kind": "index", "keys": [rng.choice(["a", "b", "k%d" % rng.randint(0, 999), "openml_%06d_data" % rng.randint(1, 99999), rng.randint(0, 10 ** 6)])
                                               for _ in range(rng.randint(1, 6))], "hashseeds": [rng.randint(1, 1000)]}
@@ -539,6 +588,9 @@ class C19(Property):
         for wiring in (False, True):
             cs.append({"kind": "mp", "keys": ["a"], "parts": 2, "wiring": wiring,
                        "progs": [[["gs", 0, 1], ["rmv", 0], ["gs", 0, 2]], [["gs", 0, 3], ["gs", 0, None]], [["rmv", 0], ["gs", 0, 4]]]})
+        # phase 6: typed key pairs (one entry / two slots, two entries / one slot, identical, unrelated), both orders where they differ
+        for a, b in self.KEY_PAIRS:
+            cs.append({"kind": "keyeq", "k1": a, "k2": b})
         return cs
 
     def f1_case(self):
@@ -588,6 +640,8 @@ class C19(Property):
             return self.eval_glue(case, driver)
         if kind == "proto":
             return self.eval_proto(case, driver)
+        if kind == "keyeq":
+            return self.eval_keyeq(case, driver)
         return self.eval_sched(case, driver)
 
     def eval_sched(self, case, driver):
@@ -1140,6 +1194,85 @@ class C19(Property):
                 fails.append(F("C", "guardHolds/applyUpd of the model differ from Python's operators for %s %s: %s %s" % (g, u, ans["guard"], ans["upd"]), "C:guard-semantics"))
         return {"fails": fails, "nontrivial": True, "tags": tags, "impl": got, "model": model}
 
+    def eval_keyeq(self, case, driver):
+        """phase 6: two keys of any hashable type on ConcurrentCacher(MemoryCacher()): history get_set(k1) || get_set(k2) inside k1's getter,
+        rmv(k2), get_set(k1). (B) on the entry (what the inner cacher treats as one key); (A) against `idxOf`/`slotsRespectEq` and the
+        transition system run with idx := idxOf."""
+        fails = []
+        o = R.run_keyeq(case)
+        same, tsame = o["same_entry"], o["same_text"]
+        exp = o["expected_slots"]
+        f4 = same and not tsame and exp[0] != exp[1]      # one entry, two lock slots (C19-F4)
+        tags = ["keyeq", "keyeq:%s-entry/%s-text" % ("same" if same else "other", "same" if tsame else "other")]
+        if o["blocked"]:
+            tags.append("keyeq:second-caller-blocked")
+        desc = "ConcurrentCacher(MemoryCacher()) keys %r / %r" % (R.dec_key(case["k1"]), R.dec_key(case["k2"]))
+        started = [e[1] for e in o["log"] if e[0] == "getter-start"]
+        val = lambda x: x[0] if isinstance(x, list) and len(x) == 2 and x[1] == "complete" else ("?", x)
+        got = [val(o["vals"][t]) for t in ("t0", "t1", "again")]
+        want_started = [1, 3] if same else [1, 2]
+        want_got = [1, 1, 3] if same else [1, 2, 1]
+        if o["hung"]:
+            fails.append(F("B", "%s: a caller never came back from get_set (log %s)" % (desc, o["log"]), "keyeq-hang"))
+        elif o["errs"]:
+            fails.append(F("B", "%s: unexpected exception %s" % (desc, o["errs"]), "keyeq-unexpected-exception:%s" % o["errs"][0][1]))
+        else:
+            sym = None
+            if same and o["max_inside"] > 1:
+                sym = "the getters of both callers ran AT THE SAME TIME for one entry (the second caller was not blocked: slots %s)" % o["slots"]
+            elif same and started != want_started:
+                sym = "getters started %s, expected %s: the getter ran again although the entry was cached" % (started, want_started)
+            elif got != want_got:
+                sym = "callers received %s (first, second, first again after rmv of the second key), expected %s" % (got, want_got)
+            elif not same and sorted(started) != [1, 2]:
+                sym = "getters started %s for two different entries, expected one run each" % started
+            if sym:
+                fails.append(F("B", "%s: %s" % (desc, sym), "equal-keys-different-slots" if f4 and o["slots"][0] != o["slots"][1] else "keyeq-single-flight"))
+            if o["arr_nonzero"] or o["locks_nonzero"]:
+                fails.append(F("B", "%s: after all callers left, lock table %s, _locks %s" % (desc, o["arr_nonzero"], o["locks_nonzero"]), "keyeq-locks-after-exit"))
+        model = None
+        if driver is not None:
+            reps = [[0, 0], [0 if same else 1, 0 if tsame else 1]]
+            htab = [[0, exp[0]]] + ([] if tsame else [[1, exp[1]]])
+            i1, i2 = reps[0][0], reps[1][0]
+            progs = [[[["gs", i1, 1], ["exit"]], [["gs", i1, 3], ["exit"]]], [[["gs", i2, 2], ["exit"]], [["rmv", i2]]]]
+            ask = lambda sched: driver.ask({"op": "keyeq", "reps": reps, "htab": htab, "progs": progs, "sched": sched})
+            r = ask([0] * 30)
+            model = {"respects": r["respects"], "slots": r["slots"], "idx": r["idx"]}
+            if r["respects"] != (not f4):
+                fails.append(F("A", "%s: slotsRespectEq %s, harness %s" % (desc, r["respects"], not f4), "A:keyeq-respects"))
+            if o["slots"] != r["slots"]:
+                fails.append(F("A", "%s: key -> slot implementation %s, model (16-bit blake2b of str(key)) %s" % (desc, o["slots"], r["slots"]), "A:keyeq-slot"))
+            if r["respects"]:
+                if r["idx"] != r["slots"]:
+                    fails.append(F("C", "idxOf %s differs from slotOf %s although slotsRespectEq holds" % (r["idx"], r["slots"]), "C:keyeq-idxOf"))
+                ev0 = [e for i, e in r["events"] if i == 0]
+                p = next(n for n, e in enumerate(ev0) if e[0] == "ccreate") + 1
+                r2 = ask([0] * p + [1] * 40 + [0] * 60)
+                ev0 = [e for i, e in r2["events"] if i == 0]
+                ent = next(n for n, e in enumerate(ev0) if e[0] == "enter")
+                q = next(n for n, e in enumerate(ev0) if n > ent and e[0] == "relR") + 1 - p
+                r3 = ask([0] * p + [1] * 40 + [0] * q + [1] * 60 + [0] * 60 + [1] * 5)
+                evs = r3["events"]
+                first_pop = next(n for n, (i, e) in enumerate(evs) if i == 0 and e[0] == "cpop")
+                m_blocked = any(i == 1 and e[0] == "spin" for i, e in evs[:first_pop])
+                m_started = [e[2] for i, e in evs if e[0] == "cpop"]
+                m_started_order = sorted(m_started[:2]) + m_started[2:]
+                e0 = [e[2] for i, e in evs if i == 0 and e[0] == "enter"]
+                e1 = [e[2] for i, e in evs if i == 1 and e[0] == "enter"]
+                m_got = [e0[0] if e0 else None, e1[0] if e1 else None, e0[1] if len(e0) > 1 else None]
+                model.update({"blocked": m_blocked, "getters": m_started, "got": m_got, "terminal": r3["terminal"], "arr": r3["arr"]})
+                if not (r3["terminal"] and all(x == 0 for x in r3["arr"])):
+                    fails.append(F("C", "model run of the typed-key history does not end terminal with a zero lock table", "C:keyeq-terminal"))
+                if not o["hung"] and not o["errs"]:
+                    if m_blocked != o["blocked"]:
+                        fails.append(F("A", "%s: second caller blocked while the first runs its getter: implementation %s, model %s (slots %s)"
+                                       % (desc, o["blocked"], m_blocked, o["slots"]), "A:keyeq-blocked"))
+                    if m_started_order != sorted(started[:2]) + started[2:] or m_got != got:
+                        fails.append(F("A", "%s: getters run / values received: implementation %s / %s, model %s / %s" % (desc, started, got, m_started, m_got),
+                                       "A:keyeq-history"))
+        return {"fails": fails, "nontrivial": True, "tags": tags, "impl": {k: v for k, v in o.items() if k != "log"}, "model": model}
+
     def eval_index(self, case, driver):
         fails, tags = [], ["index-across-interpreters"]
         o = R.run_index(case)
@@ -1382,7 +1515,7 @@ class C19(Property):
             case = dict(case, kind="openml_threads")
         if case.get("kind") == "glue":
             case = dict(case, kind="glue_" + case["what"].replace("-", "_"))
-        fn = {"glue_wrap": "run_glue_wrap", "glue_source_copy": "run_glue_source", "openml_threads": "run_openml_threads", "sched": "run_sched", "disk": "run_disk", "mp": "run_mp", "depth": "run_depth", "openml": "run_openml", "index": "run_index"}[case.get("kind", "sched")]
+        fn = {"glue_wrap": "run_glue_wrap", "glue_source_copy": "run_glue_source", "openml_threads": "run_openml_threads", "sched": "run_sched", "disk": "run_disk", "mp": "run_mp", "depth": "run_depth", "openml": "run_openml", "index": "run_index", "keyeq": "run_keyeq"}[case.get("kind", "sched")]
         return ("# runs the case on the real coba cachers (threads under the baton scheduler of /verif/harness/props/c19_sched.py)\n"
                 "import sys, json; sys.path[:0]=[%r, '/verif/harness']\nfrom props.c19_run import %s\n"
                 "case = json.loads(%r)\nr = %s(case)\nprint(json.dumps({k: v for k, v in r.items() if k != 'events'}, indent=1, default=str))\n"
